@@ -31,3 +31,30 @@ package mobius
 //@   let opt := reqdata(0, 113)
 //@   ensures !isnil(opt) && len(opt) >= 2 && old(bitof(u16(bytes(opt)), 2)) == 0 ==> len(cc.AutoReply) == 0
 //@   ensures !isnil(opt) && len(opt) >= 2 && old(bitof(u16(bytes(opt)), 2)) == 1 ==> same(cc.AutoReply, reqdata(0, 215))
+
+// ---------------------------------------------------------------------------------
+// C17: the ban list.  IsBanned answers from the map; Add records the entry, leaves every other
+// address alone, writes the file and reports success only if the write succeeded.
+
+//@ func (bf *BanFile) IsBanned(ip string) (banned bool, until *time.Time)
+//@   requires bf != nil
+//@   ensures banned == has(bf.banList, ip)
+//@   ensures banned ==> until == get(bf.banList, ip)
+//@   ensures !banned ==> until == nil
+//@   guarded_by bf.Mutex: banList
+//@   nopanic
+
+//@ func (bf *BanFile) Add(ip string, until *time.Time) (err error)
+//@   requires bf != nil && !isnil(bf.banList)
+//@   ensures has(bf.banList, ip) && get(bf.banList, ip) == until
+//@   ensures forall(k, -1000000000000, 1000000000000, k != ip ==> has(bf.banList, k) == has_old(bf.banList, k) && get(bf.banList, k) == get_old(bf.banList, k))
+//@   ensures err == nil ==> callres("os.WriteFile") == nil
+//@   before call os.WriteFile assert same(arg1, callres("gopkg.in/yaml.v3.Marshal", 0))
+//@   guarded_by bf.Mutex: banList
+
+// C17: a disconnect with ban option 1 bans the target's address for 30 minutes, option 2 forever.
+
+//@ func HandleDisconnectUser(cc *hotline.ClientConn, t *hotline.Transaction) (res []hotline.Transaction)
+//@   before call (time.Time).Add assert arg1 == 1800000000000
+//@   before call strings.Split assert arg0 == clientConn.RemoteAddr
+//@   before call (hotline.BanMgr).Add assert (reqdata(0, 113)[1] == 1 ==> arg2 != nil) && (reqdata(0, 113)[1] == 2 ==> arg2 == nil) && (reqdata(0, 113)[1] == 1 || reqdata(0, 113)[1] == 2)
